@@ -154,7 +154,7 @@ def points(tier: str) -> List[Dict[str, Any]]:
         for k in range(0, 12):
             pts.append({"scenario": "at-birth", "socks": socks, "k": k, "mode": "async_close", "jitter": 0.0, "close_at_us": 0})
     for scenario in SCENARIOS:
-        for jitter in ((0.0,) if tier == "quick" else (0.0, 1.0)):
+        for jitter in (0.0, 1.0):
             inst = reference_instants(scenario, jitter)
             offs = set()
             for i in inst:
